@@ -106,9 +106,10 @@ PROPS = {
     "C13": {
         "level": "exploration",
         "tests": [{"name": "TestC13", "noasm": True, "quick": 5000, "thorough": 80000}],
+        "fuzz": [{"name": "FuzzC13Reset", "time": "90s"}],
         "rule": "cases = (package flate/gzip/zlib; 1-3 earlier inputs, valid or malformed, each with a read plan: no reads / read k bytes then abandon / drain to EOF or error; then Reset onto the next input: valid, truncated, malformed, in particular streams whose back-references reach before their own start; zlib with right / wrong / missing / unneeded dictionary; bad checksum or cut trailer; read sizes; source chunking) drawn by rapid; in a quarter of the cases every use hands the Reader the same refilled source object (earlier inputs followed by 0..5000 further bytes the Reader may have read ahead); in a third of the zlib cases all dictionaries live in one caller-owned buffer of fixed length whose contents are replaced between uses; in a third of the earlier uses the source is the caller's own *bufio.Reader (16 B..64 KiB) with other data after the stream. "
                 "Oracle (model = fresh object): Reset's return value, header fields, every byte and the final error string (incl. CorruptInputError offset) equal those of a newly constructed Reader (NewReader / NewReaderDict) on an identical source; and every caller-owned *bufio.Reader used earlier holds exactly the buffered and unread bytes it held when the Reader left it (a new Reader never touches an unrelated earlier source). "
-                "Non-trivial = an earlier use left undelivered output, an error or a mid-stream state, and the next input is non-empty.",
+                "Thorough tier adds a coverage-guided native fuzz target (two arbitrary byte strings: the Reader reads part or all of the first, is Reset onto the second; same model oracle). Non-trivial = an earlier use left undelivered output, an error or a mid-stream state, and the next input is non-empty.",
         "assumptions": COMMON_ASSUME,
     },
     "C04": {
@@ -158,9 +159,10 @@ PROPS = {
             {"name": "TestC07", "quick": 8000, "thorough": 400000},
             {"name": "TestC07Ex", "kind": "plain"},
         ],
+        "fuzz": [{"name": "FuzzC07AnyBytes", "time": "90s"}],
         "rule": "cases = well-formed container (gzip with 1-3 members or zlib; fastgo or standard encoder; payload mostly <= 4 KiB so corruption density is high) x corruption (1-3 bit flips / byte substitutions in the trailer, the header or anywhere) or truncation (drawn; every byte for fixed small containers, exhaustive) x Read sizes (destination pre-filled with a canary) x source (bytes.Reader, 16-byte or 4096-byte bufio). "
                 "Oracle: no panic; Read returns 0<=n<=len(p) and does not write past p; final error is io.EOF or a checksum/header/corrupt-input/unexpected-EOF error; io.EOF only if the reference container parser judges the corrupted input valid and the bytes handed out equal its payload; a still-valid input must read to EOF; truncation inside a member gives a prefix of the true payload and io.ErrUnexpectedEOF, a cut exactly between gzip members (or empty input) reads as a shorter valid file. "
-                "Non-trivial = the reference verdict on the corrupted input is not VALID.",
+                "Thorough tier adds a coverage-guided native fuzz target (any bytes through the gzip/zlib Readers, seeded with valid containers of every header shape, same oracle). Non-trivial = the reference verdict on the corrupted input is not VALID.",
         "assumptions": COMMON_ASSUME + ["32-bit checksum collisions are ignored"],
     },
     "C08": {
